@@ -645,6 +645,23 @@ def _faithful_restore(project, owner, fnode, call, w) -> bool:
             tgt_names = {t.id for t in ast.walk(x.target) if isinstance(t, ast.Name)}
             if recv.id in tgt_names:
                 it = x.iter
+                while isinstance(it, ast.Call) and isinstance(it.func, ast.Name) and it.func.id in ("sorted", "reversed", "list", "tuple") \
+                        and it.args:
+                    it = it.args[0]      # the same arrays in another order
+                if isinstance(it, ast.Name):
+                    # a list filled one by one: every `held.append(a)` sits under a test on a's flags
+                    apps = [c for c in ast.walk(fnode) if isinstance(c, ast.Call) and isinstance(c.func, ast.Attribute)
+                            and c.func.attr in ("append", "add") and isinstance(c.func.value, ast.Name) and c.func.value.id == it.id]
+                    if apps:
+                        def _guarded(c):
+                            y = c
+                            while id(y) in parents:
+                                y = parents[id(y)]
+                                if isinstance(y, ast.If) and _mentions_flags(project, owner.module, y.test):
+                                    return True
+                            return False
+                        if all(_guarded(c) for c in apps):
+                            return True
                 srcs = [it]
                 if isinstance(it, ast.Name):
                     srcs = [a_.value for a_ in ast.walk(fnode) if isinstance(a_, ast.Assign)
